@@ -26,25 +26,61 @@ def m1(run: Run, cy: CyProgram):
                if f.name.startswith("_local_cliquishness_")]
     run.floor("cliquishness kernels", len(kernels), 2)
     for f in sorted(kernels, key=lambda f: f.name):
-        sites = [s for s in count_sites(f.body) if s.counter == "counter"]
+        # the clique counter is the numerator of the normalisation statement
+        # `out[i] = counter / (d (d-1) ...)` - whatever it is called
+        def strip(e):
+            while e.k == "cast":
+                e = e.a[1]
+            return e
+        norm = None
+        for st in walk(f.body):
+            if isinstance(st, X) and st.k == "assign" and strip(st.a[1]).k == "bin" and \
+                    strip(st.a[1]).a[0] == "/" and strip(strip(st.a[1]).a[1]).k == "name":
+                norm = st
+        if norm is None:
+            raise AnalysisError(f"{f.where}: normalisation statement not found")
+        counter = strip(strip(norm.a[1]).a[1]).a[0]
+        sites = [s for s in count_sites(f.body) if s.counter == counter]
         if len(sites) != 1:
-            raise AnalysisError(f"{f.where}: expected one `counter += 1` in {f.name}, "
+            raise AnalysisError(f"{f.where}: expected one `{counter} += 1` in {f.name}, "
                                 f"found {len(sites)}")
         s = sites[0]
-        # neighbour roles: variables bound to neighbors[<loop var>] with the loop
-        # running over the full neighbour range
+        adj = next((n for n, t in f.args if t.kind in ("buffer", "memview")
+                    and t.ndim == 2), "A")
+        # neighbour roles: variables bound to <neighbour list>[<loop var>] with
+        # the loop running over the full neighbour range
         roles = {}
         for name in sorted({n for t in s.tests for n in t[1]}):
             src, lv, it = resolve_role(name, s)
             roles[name] = (src, lv, pp(it) if it is not None else None)
-        nb_roles = sorted(n for n, (src, lv, it) in roles.items() if src == "neighbors")
-        full = all(roles[n][2] == "range(degree_i)" for n in nb_roles)
+        srcs = [src for (src, lv, it) in roles.values() if src != "range"]
+        nb_src = max(set(srcs), key=srcs.count) if srcs else None
+        nb_roles = sorted(n for n, (src, lv, it) in roles.items() if src == nb_src)
+        ranges = {roles[n][2] for n in nb_roles}
+        # the common range bound must be the node's degree: a local bound to
+        # <degree parameter>[<outer loop variable>]
+        dname = None
+        if len(ranges) == 1 and None not in ranges:
+            r0 = next(iter(ranges)).replace(" ", "")
+            if r0.startswith("range(") and r0.endswith(")") and "," not in r0:
+                cand = r0[len("range("):-1]
+                bnd = s.bindings.get(cand)
+                degp = [n for n, t in f.args if t.kind in ("buffer", "memview")
+                        and t.ndim == 1]
+                if bnd is not None and bnd.k == "index" and bnd.a[0].k == "name" and \
+                        bnd.a[0].a[0] in degp and s.loops and \
+                        pp(bnd.a[1][0]) == s.loops[0][0]:
+                    dname = cand
+        full = dname is not None
         r = len(nb_roles)
         want = {frozenset((a, b)) for i, a in enumerate(nb_roles) for b in nb_roles[i + 1:]}
-        got = {p for p in s.pairs("A") if p <= set(nb_roles) and len(p) == 2}
+        got = {p for p in s.pairs(adj) if p <= set(nb_roles) and len(p) == 2}
         missing = sorted(tuple(sorted(p)) for p in want - got)
-        degenerate = [t for t in s.tests if t[2] and len(set(t[1])) == 1]
         ok = full and not missing and r >= 3
+        # report roles by position (1st, 2nd ... neighbour loop), not by name
+        pos = {n: f"nb{k + 1}" for k, n in enumerate(
+            sorted(nb_roles, key=lambda n: [v for v, _ in s.loops].index(roles[n][1])
+                   if roles[n][1] in [v for v, _ in s.loops] else 99))}
         run.oblige("M1", f"{f.name}:guards", ok, sample={
             "where": f"{f.module.relpath}:{s.line}", "roles": roles,
             "tested_pairs": sorted(tuple(sorted(p)) for p in got),
@@ -52,25 +88,19 @@ def m1(run: Run, cy: CyProgram):
         if not full:
             run.add("M1", f"{f.name}/range", f"{f.module.relpath}:{s.line}",
                     f"{f.name}: a neighbour role does not range over all "
-                    f"`range(degree_i)` neighbours: {roles}")
+                    f"`range(<degree of the node>)` neighbours: {roles}")
         if missing:
             run.add("M1", f"{f.name}/missing-pairs/" +
-                    ",".join("-".join(p) for p in missing),
+                    ",".join("-".join(sorted(pos[x] for x in p)) for p in missing),
                     f"{f.module.relpath}:{s.line}",
                     f"{f.name} counts {r}-tuples of neighbours as cliques without "
                     f"testing the link(s) {missing}: tuples that are not cliques "
                     f"(e.g. with a repeated neighbour) are counted (tested: "
                     f"{sorted(tuple(sorted(p)) for p in got)})")
         # normaliser: falling factorial of the degree with r factors
-        norm = None
-        for st in walk(f.body):
-            if isinstance(st, X) and st.k == "assign" and st.a[1].k == "bin" and \
-                    st.a[1].a[0] == "/" and pp(st.a[1].a[1]) == "counter":
-                norm = st
-        if norm is None:
-            raise AnalysisError(f"{f.where}: normalisation statement not found")
-        facs = sorted(pp(x).replace(" ", "") for x in product_factors(norm.a[1].a[2]))
-        wantf = sorted(["degree_i"] + [f"(degree_i-{t})" for t in range(1, r)])
+        d = dname or "degree_i"
+        facs = sorted(pp(x).replace(" ", "") for x in product_factors(strip(norm.a[1]).a[2]))
+        wantf = sorted([d] + [f"({d}-{t})" for t in range(1, r)])
         okn = facs == wantf
         run.oblige("M1", f"{f.name}:normaliser", okn, sample={
             "where": f"{f.module.relpath}:{norm.line}", "factors": facs})
